@@ -232,28 +232,41 @@ fn parse_calls(s: &str) -> Option<Vec<Setter>> {
     if s == "-" { Some(vec![]) } else { s.split(',').map(Setter::parse).collect() }
 }
 
-/// Oracle on the real builder for one call sequence: `Some(why)` when it fails.
-fn builder_oracle(calls: &[Setter], got: &Result<Eff, String>) -> Option<String> {
+/// Oracle on the real builder for one call sequence: `Some((kind, why))` when it fails.
+fn builder_oracle(calls: &[Setter], got: &Result<Eff, String>) -> Option<(&'static str, String)> {
     match (spec_config(calls), got) {
         (None, Err(_)) => None,
-        (None, Ok(e)) => Some(format!("a documented assert should have fired, got `{}`", e.line())),
-        (Some(_), Err(p)) => Some(format!("builder panicked: {p}")),
+        (None, Ok(e)) => Some(("builder-assert-missing", format!("a documented assert should have fired, got `{}`", e.line()))),
+        (Some(_), Err(p)) => Some(("builder-panic", format!("builder panicked: {p}"))),
         (Some((i, t)), Ok(e)) => {
             if let (Some(iv), Some(tv)) = (e.interval, e.timeout) {
                 if tv < iv {
-                    return Some(format!(
-                        "effective keepalive_timeout {tv} ms < keepalive_interval {iv} ms: a peer answering every ping at once is declared dead"
+                    return Some((
+                        "builder-timeout-below-interval",
+                        format!("effective keepalive_timeout {tv} ms < keepalive_interval {iv} ms: a peer answering every ping at once is declared dead"),
                     ));
                 }
             }
             if e.interval != i {
-                return Some(format!("keepalive_interval is {} but the last value set was {}", od_tok(e.interval), od_tok(i)));
+                return Some((
+                    "builder-interval",
+                    format!("keepalive_interval is {} but the last value set was {}", od_tok(e.interval), od_tok(i)),
+                ));
             }
             if e.timeout != t {
-                return Some(format!(
-                    "keepalive_timeout is {} but the requested timeout clamped to the interval is {}",
-                    od_tok(e.timeout),
-                    od_tok(t)
+                let kind = match (e.timeout, e.interval) {
+                    (None, Some(_)) => "builder-finite-timeout-becomes-never",
+                    (None, None) => "builder-finite-timeout-lost-while-disabled",
+                    _ => "builder-timeout",
+                };
+                return Some((
+                    kind,
+                    format!(
+                        "keepalive_timeout is {} but the requested timeout (clamped to the interval if lower) is {}; keepalive_interval is {}",
+                        od_tok(e.timeout),
+                        od_tok(t),
+                        od_tok(e.interval)
+                    ),
                 ));
             }
             None
@@ -743,6 +756,7 @@ fn gen_builder_seq(r: &mut Rng) -> Vec<Setter> {
             0..=3 => Setter::I(if r.chance(1, 6) { Some(r.range(1, 100_000)) } else { *r.pick(&POOL) }),
             4..=7 => Setter::T(if r.chance(1, 6) { Some(r.range(1, 100_000)) } else { *r.pick(&POOL) }),
             8 => gen_noise(r),
+            _ if r.chance(3, 4) => gen_noise(r),
             _ => match r.below(6) {
                 // values on which the documented asserts fire
                 0 => Setter::Dg(0),
@@ -765,7 +779,13 @@ struct Ctx {
     drv: Option<Driver>,
     hung: u64,
     exited_after_silent_close: u64,
+    /// one (shrunk) failure per kind is reported
+    seen_kinds: std::collections::HashSet<String>,
+    /// model disagreements recorded so far (capped, so that they cannot crowd out failing inputs)
+    model_fails: usize,
 }
+
+const MAX_MODEL_FAILS: usize = 6;
 
 impl Ctx {
     fn builder_batch(&mut self, seqs: &[Vec<Setter>], origin: &str) {
@@ -794,19 +814,23 @@ impl Ctx {
                     "panic".to_string()
                 }
             };
-            if let Some(why) = builder_oracle(calls, &got) {
-                let small = shrink_list(calls.clone(), |c| builder_oracle(c, &build_observed(c)).is_some());
-                let why_small = builder_oracle(&small, &build_observed(&small)).unwrap_or(why);
-                self.rep.fail(
-                    FailKind::Impl,
-                    &format!("build {}", calls_line(&small)),
-                    &why_small,
-                    json!({"op": "build", "line": format!("build {}", calls_line(&small)), "original": reqs[k]}),
-                );
+            if let Some((kind, why)) = builder_oracle(calls, &got) {
+                if self.seen_kinds.insert(kind.to_string()) {
+                    let same = |c: &[Setter]| builder_oracle(c, &build_observed(c)).is_some_and(|(k, _)| k == kind);
+                    let small = shrink_list(calls.clone(), same);
+                    let why_small = builder_oracle(&small, &build_observed(&small)).map_or(why, |(_, w)| w);
+                    self.rep.fail(
+                        FailKind::Impl,
+                        &format!("{kind} build {}", calls_line(&small)),
+                        &why_small,
+                        json!({"op": "build", "line": format!("build {}", calls_line(&small)), "original": reqs[k]}),
+                    );
+                }
             }
             if let Some(m) = &model {
                 self.rep.model_compared += 1;
-                if m[k] != line {
+                if m[k] != line && self.model_fails < MAX_MODEL_FAILS {
+                    self.model_fails += 1;
                     self.rep.fail(
                         FailKind::Model,
                         &reqs[k],
@@ -873,6 +897,25 @@ impl Ctx {
                 _ => "run/config/T>I",
             });
             self.rep.count(&format!("run/pongs-received/{}", match o.pongs.len() { 0 => "0", 1..=3 => "1-3", 4..=15 => "4-15", _ => "16+" }));
+            if let (Some(iv), Some(tv)) = (o.eff.interval, o.eff.timeout) {
+                // boundaries of the check `T < now - last_pong` (strict) and of "pongs are read before the tick"
+                let lp_at = |x: u64| o.pongs.iter().copied().filter(|&p| p <= x).max().unwrap_or(0);
+                if o.pings.iter().any(|&x| x > 0 && x - lp_at(x) == tv) {
+                    self.rep.count("run/boundary/last-pong-exactly-T-old-at-a-tick-and-survived");
+                }
+                if iv > 0 && o.pongs.iter().any(|&p| p > 0 && p % iv == 0) {
+                    self.rep.count("run/boundary/pong-read-exactly-at-a-tick");
+                }
+                if let Exit::Timeout { close_at, .. } = &o.exit {
+                    let since = close_at - lp_at(*close_at);
+                    if since == tv + 1 {
+                        self.rep.count("run/boundary/timeout-at-T+1");
+                    }
+                    if since == tv + iv {
+                        self.rep.count("run/boundary/timeout-at-T+I");
+                    }
+                }
+            }
             if c.silent {
                 match &o.exit {
                     Exit::Hung { .. } => self.hung += 1,
@@ -880,7 +923,7 @@ impl Ctx {
                     _ => {}
                 }
             }
-            if let Some((key, why)) = run_oracle(c, o) {
+            if let Some((key, why)) = run_oracle(c, o).filter(|(k, _)| self.seen_kinds.insert(k.split(' ').next().unwrap_or("").to_string())) {
                 let (small, key, why) = shrink_case(c, key, why);
                 self.rep.fail(FailKind::Impl, &key, &why, json!({"op": "case", "line": small.line(), "original": line, "observed": obs_line(o)}));
             }
@@ -888,7 +931,8 @@ impl Ctx {
                 debug_assert_eq!(idx[mi], k);
                 self.rep.model_compared += 1;
                 let got = obs_line(o);
-                if m[mi] != got {
+                if m[mi] != got && self.model_fails < MAX_MODEL_FAILS {
+                    self.model_fails += 1;
                     self.rep.fail(
                         FailKind::Model,
                         &line,
@@ -935,10 +979,10 @@ fn shrink_case(c: &Case, key: String, why: String) -> (Case, String, String) {
     }
     if let Some((i, _)) = spec_config(&cur.calls).and_then(|(i, t)| i.map(|i| (i, t))) {
         if i > 0 {
-            let mut n = cur.horizon / i;
-            while n > 1 && same(&Case { horizon: (n - 1) * i + 1, ..cur.clone() }) {
-                n -= 1;
-                cur.horizon = n * i + 1;
+            // the smallest number of ticks (up to a bound) that still shows the failure
+            let n = cur.horizon / i;
+            if let Some(m) = (1..n.min(120)).find(|m| same(&Case { horizon: m * i + 1, ..cur.clone() })) {
+                cur.horizon = m * i + 1;
             }
         }
     }
@@ -964,7 +1008,7 @@ fn replay(path: &str) -> i32 {
             println!("real       {}", got.as_ref().map_or_else(|p| format!("panic: {p}"), Eff::line));
             println!("documented {:?}", spec_config(&calls));
             match builder_oracle(&calls, &got) {
-                Some(why) => {
+                Some((_kind, why)) => {
                     println!("FAILS: {why}");
                     1
                 }
@@ -1029,9 +1073,11 @@ enabled and at least two ticks inside the horizon; distinct by content";
         drv: args.driver.as_deref().map(|p| Driver::spawn(p, &[]).expect("start Lean driver")),
         hung: 0,
         exited_after_silent_close: 0,
+        seen_kinds: std::collections::HashSet::new(),
+        model_fails: 0,
     };
     let threads = std::thread::available_parallelism().map_or(4, std::num::NonZero::get).min(16);
-    let mut rng = Rng::new(args.seed);
+    let rng = Rng::new(args.seed);
 
     // corpus first
     let mut corpus_builds = vec![];
@@ -1055,8 +1101,8 @@ enabled and at least two ticks inside the horizon; distinct by content";
     cx.run_batch(&corpus_cases, "corpus", threads);
 
     let (exh_len, n_builder, n_runs) = match args.tier {
-        Tier::Quick => (4, 20_000, 12_000),
-        Tier::Thorough => (6, 400_000, 400_000),
+        Tier::Quick => (4, 60_000, 150_000),
+        Tier::Thorough => (6, 1_500_000, 4_000_000),
     };
 
     // builder: every sequence up to `exh_len` over a keepalive alphabet
@@ -1086,9 +1132,12 @@ enabled and at least two ticks inside the horizon; distinct by content";
     }
     cx.rep.notes.push(format!("builder sequences enumerated completely: length <= {exh_len} over a 7-symbol keepalive alphabet"));
     let mut rb = rng.fork(1);
-    let seqs: Vec<Vec<Setter>> = (0..n_builder).map(|_| gen_builder_seq(&mut rb)).collect();
-    for ch in seqs.chunks(8192) {
-        cx.builder_batch(ch, "random");
+    let mut left = n_builder;
+    while left > 0 {
+        let n = left.min(8192);
+        let seqs: Vec<Vec<Setter>> = (0..n).map(|_| gen_builder_seq(&mut rb)).collect();
+        cx.builder_batch(&seqs, "random");
+        left -= n;
     }
 
     // runs: a fixed grid first, then random
@@ -1125,11 +1174,13 @@ enabled and at least two ticks inside the horizon; distinct by content";
     cx.run_batch(&grid, "grid", threads);
 
     let mut rr = rng.fork(2);
-    let cases: Vec<Case> = (0..n_runs).map(|_| gen_case(&mut rr)).collect();
-    for ch in cases.chunks(16_384) {
-        cx.run_batch(ch, "random", threads);
+    let mut left = n_runs;
+    while left > 0 {
+        let n = left.min(32_768);
+        let cases: Vec<Case> = (0..n).map(|_| gen_case(&mut rr)).collect();
+        cx.run_batch(&cases, "random", threads);
+        left -= n;
     }
-    rng.next();
 
     cx.rep.notes.push(format!(
         "transport kept silent after the endpoint's close: task stuck in wind_down until the horizon in {} runs, returned in {} runs \
